@@ -1,6 +1,6 @@
 (** non-vacuity for C05: concrete, non-trivial instances meeting the hypotheses of the main theorems *)
 From Coq Require Import List NArith ZArith Bool String Ascii.
-From ApiFu Require Import Base.Sexp Val.Values Val.CoerceModel Val.CoerceSpec Val.CoerceProofs Val.CoerceRefine Val.CoerceRoutes.
+From ApiFu Require Import Base.Sexp Val.Values Val.CoerceModel Val.CoerceSpec Val.CoerceProofs Val.CoerceRefine Val.CoerceRoutes Val.CoerceTotal.
 Import ListNotations.
 Open Scope string_scope.
 
@@ -100,3 +100,18 @@ Example rounding :
   f64_of_decimal 1 400 = None /\                                (* overflow: ErrRange *)
   f64_of_decimal 5 (-324) = Some (F64 1 (-1074)).              (* the smallest subnormal *)
 Proof. repeat split; vm_compute; reflexivity. Qed.
+
+(** request_no_panic / request_exact are not vacuous: the example schema is closed (and ok), so is
+    every argument type, and the raw values are well-formed; the closedness premise is needed: one
+    undefined type name and the model panics (Go: nil pointer / "unsupported ... type") *)
+Example closed_hypotheses_hold :
+  env_ok Eex = true /\ env_closed Eex = true /\
+  (forall ad, In ad argdefs_ex -> sty_closed Eex (in_type (snd ad)) = true) /\
+  (forall p, In p raw_ex -> jval_ok (snd p) = true) /\
+  coerce_var_value all_fixed Eex dtex (JNum (F64 5 0)) (StNamed (nm "Nowhere")) true = Panic.
+Proof.
+  split; [vm_compute; reflexivity|split; [vm_compute; reflexivity|split; [|split]]].
+  - intros ad [<-|[<-|[]]]; vm_compute; reflexivity.
+  - intros p [<-|[<-|[]]]; vm_compute; reflexivity.
+  - vm_compute; reflexivity.
+Qed.
